@@ -35,33 +35,40 @@ VARIABLES rclock, rinit, rmax, rslack,
           attDown,     \* the attempt in progress was started while down (a reconnect attempt)
           pend,        \* r -> [at, st, busy]   issued, not yet delivered
           recv,        \* set of times at which requests arrived at the endpoint
-          closedAt     \* -1 or time the client was closed
-rvars == <<rclock, rinit, rmax, rslack, down, firm, downAt, lastEnd, prevGap, attDown, pend, recv, closedAt>>
+          closedAt,    \* -1 or time the client was closed
+          stragAt      \* -1 or the latest time at which a request issued before the outage was known
+                       \* (it was already past the resurrector) completed during the outage
+rvars == <<rclock, rinit, rmax, rslack, down, firm, downAt, lastEnd, prevGap, attDown, pend, recv, closedAt, stragAt>>
 
 RInit(t0, i, m, s) ==
   /\ rclock = t0 /\ rinit = i /\ rmax = m /\ rslack = s /\ down = FALSE /\ firm = FALSE /\ downAt = -1 /\ lastEnd = -1
-  /\ prevGap = -1 /\ attDown = FALSE /\ pend = <<>> /\ recv = {} /\ closedAt = -1
+  /\ prevGap = -1 /\ attDown = FALSE /\ pend = <<>> /\ recv = {} /\ closedAt = -1 /\ stragAt = -1
 
 Mono(t) == IF t >= rclock THEN "ok" ELSE "harness.clockMonotone"
 Same == UNCHANGED <<rinit, rmax, rslack>>
 SameA == UNCHANGED <<rinit, rmax, rslack, attDown>>
 
 ReachCheck(up, t) == Mono(t)
-ReachUpd(up, t) == rclock' = t /\ SameA /\ UNCHANGED <<down, firm, downAt, lastEnd, prevGap, pend, recv, closedAt>>
+ReachUpd(up, t) == rclock' = t /\ SameA /\ UNCHANGED <<down, firm, downAt, lastEnd, prevGap, pend, recv, closedAt, stragAt>>
 
 DownCheck(t) == Mono(t)
 DownUpd(t) == /\ rclock' = t /\ SameA /\ down' = TRUE /\ lastEnd' = (IF down THEN lastEnd ELSE t)
               /\ downAt' = (IF down THEN downAt ELSE t)
               /\ prevGap' = (IF down THEN prevGap ELSE -1) /\ UNCHANGED firm
-              /\ UNCHANGED <<pend, recv, closedAt>>
+              /\ UNCHANGED <<pend, recv, closedAt, stragAt>>
 UpCheck(t) == Mono(t)
 UpUpd(t) == /\ rclock' = t /\ SameA /\ down' = FALSE /\ firm' = FALSE /\ downAt' = -1 /\ lastEnd' = -1 /\ prevGap' = -1
-            /\ UNCHANGED <<pend, recv, closedAt>>
+            /\ UNCHANGED <<pend, recv, closedAt, stragAt>>
 
 \* An attempt is one of the resurrector's retries iff it starts during an outage at a later time
 \* than the outage began; connects started in the very instant the connection died belong to
 \* requests that were already past the resurrector.
-Retry(t) == down /\ lastEnd >= 0 /\ downAt >= 0 /\ t > downAt
+\* A request that was issued before the outage was known is already past the resurrector; the serial
+\* transport re-connects on its behalf when it times out (at its deadline, possibly much later than the
+\* outage began).  Such a connect is not one of the resurrector's retries.
+Straggler(t) == \/ \E r \in DOMAIN pend : pend[r].at <= downAt
+                \/ stragAt = t
+Retry(t) == down /\ lastEnd >= 0 /\ downAt >= 0 /\ t > downAt /\ ~Straggler(t)
 
 \* a reconnect attempt starts: back-off discipline, and nothing after the client was closed
 AttemptCheck(t) ==
@@ -79,7 +86,7 @@ AttemptCheck(t) ==
 AttemptUpd(t) ==
   /\ rclock' = t /\ Same /\ attDown' = Retry(t)
   /\ prevGap' = IF Retry(t) THEN t - lastEnd ELSE prevGap
-  /\ UNCHANGED <<down, firm, downAt, lastEnd, pend, recv, closedAt>>
+  /\ UNCHANGED <<down, firm, downAt, lastEnd, pend, recv, closedAt, stragAt>>
 
 AttemptEndCheck(ok, t) == Mono(t)
 \* a failed attempt is an observed failure; a successful one ends the outage
@@ -90,13 +97,13 @@ AttemptEndUpd(ok, t) ==
   /\ firm' = IF ok THEN FALSE ELSE firm
   /\ lastEnd' = IF ok THEN -1 ELSE IF (down /\ attDown) \/ ~down THEN t ELSE lastEnd
   /\ prevGap' = IF ok \/ ~down THEN -1 ELSE prevGap
-  /\ UNCHANGED <<pend, recv, closedAt>>
+  /\ UNCHANGED <<pend, recv, closedAt, stragAt>>
 
 ReqCheck(r, st, busy, t) ==
   IF Mono(t) # "ok" THEN Mono(t) ELSE IF r \in DOMAIN pend THEN "harness.freshReq" ELSE "ok"
 ReqUpd(r, st, busy, t) ==
   /\ rclock' = t /\ SameA /\ pend' = pend @@ (r :> [at |-> t, st |-> IF firm THEN 4 ELSE 0, busy |-> busy])
-  /\ UNCHANGED <<down, firm, downAt, lastEnd, prevGap, recv, closedAt>>
+  /\ UNCHANGED <<down, firm, downAt, lastEnd, prevGap, recv, closedAt, stragAt>>
 
 \* a request issued while the endpoint is known down (and no attempt is in progress that could
 \* flip the state within the instant) fails in the same instant with the fail-fast error
@@ -107,18 +114,19 @@ DeliverCheck(r, kind, t) ==
   ELSE "ok"
 DeliverUpd(r, kind, t) ==
   /\ rclock' = t /\ SameA /\ pend' = [x \in DOMAIN pend \ {r} |-> pend[x]]
+  /\ stragAt' = IF r \in DOMAIN pend /\ down /\ pend[r].at <= downAt THEN t ELSE stragAt
   /\ UNCHANGED <<down, firm, downAt, lastEnd, prevGap, recv, closedAt>>
 
 SrvRecvCheck(r, t) == Mono(t)
 SrvRecvUpd(r, t) == /\ rclock' = t /\ SameA /\ recv' = recv \cup {t}
-                    /\ UNCHANGED <<down, firm, downAt, lastEnd, prevGap, pend, closedAt>>
+                    /\ UNCHANGED <<down, firm, downAt, lastEnd, prevGap, pend, closedAt, stragAt>>
 
 \* requests issued while known down must not still be waiting (they fail at once)
 QuietCheck(t) ==
   IF Mono(t) # "ok" THEN Mono(t)
   ELSE IF closedAt < 0 /\ \E r \in DOMAIN pend : pend[r].st = 4 /\ ~pend[r].busy /\ pend[r].at < t THEN "C09.failFast"
   ELSE "ok"
-QuietUpd(t) == rclock' = t /\ SameA /\ firm' = down /\ UNCHANGED <<down, downAt, lastEnd, prevGap, pend, recv, closedAt>>
+QuietUpd(t) == rclock' = t /\ SameA /\ firm' = down /\ UNCHANGED <<down, downAt, lastEnd, prevGap, pend, recv, closedAt, stragAt>>
 
 \* reachable since tau with steady traffic: some request reached the endpoint within the bound
 RecoverCheck(tau, t) ==
@@ -130,5 +138,5 @@ RecoverUpd(tau, t) == QuietUpd(t)
 
 ClientClosedCheck(t) == Mono(t)
 ClientClosedUpd(t) == /\ rclock' = t /\ SameA /\ closedAt' = t
-                      /\ UNCHANGED <<down, firm, downAt, lastEnd, prevGap, pend, recv>>
+                      /\ UNCHANGED <<down, firm, downAt, lastEnd, prevGap, pend, recv, stragAt>>
 =============================================================================
